@@ -170,19 +170,26 @@ def c12(scn, obs):
 
 def c02(scn, obs):
     bad = []
-    per: dict = {}
-    order = []
+    # a record begins at each 'initialized' publication (numbers can legitimately repeat when the
+    # caller restarts the numbering): initialized, running, finished, exactly once, one number
+    records = []
     for o in obs:
         if o.get('k') == 'pub' and o.get('topic') == 'run_info':
-            rn = o['value']['run_no']
-            per.setdefault(rn, []).append(o['value']['state'])
-            if rn not in order:
-                order.append(rn)
+            v = o['value']
+            if v['state'] == 'initialized' or not records:
+                records.append([])
+            records[-1].append((v['run_no'], v['state']))
     full = ['initialized', 'running', 'finished']
-    endobs = next((o for o in obs if o.get('k') == 'end'), None)
-    for rn, seq in per.items():
+    per = {}
+    for i, rec in enumerate(records):
+        seq = [st for _, st in rec]
+        nos = {n for n, _ in rec}
+        per[i] = seq
         if seq != full[:len(seq)]:
-            bad.append((f'run-info-order:{"-".join(seq)}', f'run {rn}: run_info went {seq}'))
+            bad.append((f'run-info-order:{"-".join(seq)}', f'run record {rec[0][0]}: run_info went {seq}'))
+        if len(nos) > 1:
+            bad.append(('run-info-number-changes', f'one run record carries the numbers {sorted(nos)}'))
+    endobs = next((o for o in obs if o.get('k') == 'end'), None)
     # every accepted run has a record and completes
     accepted = [o for o in obs if o.get('k') == 'ret' and o.get('api') in ('run', 'run_and_continue', 'run_continue_and_wait', 'run_session') and o.get('res') == 'ok']
     started = [o for o in obs if o.get('k') == 'hook' and o['hook'] == 'on_start_run']
@@ -267,7 +274,7 @@ def c14(scn, obs):
             rn = o['run_no']
             if prev_rn is not None and rn != prev_rn + 1 and rn not in restart_values:
                 bad.append(('run-no-not-consecutive', f'run number went {prev_rn} -> {rn}'))
-            if prev_rn is not None and rn == prev_rn:
+            if prev_rn is not None and rn == prev_rn and rn not in restart_values:
                 bad.append(('run-no-repeated', f'run number {rn} handed out twice'))
             prev_rn = rn
         elif k == 'hook' and o['hook'] == 'on_start_run':
